@@ -4,7 +4,7 @@
    of the index it stands for, for any symmetry-consistent phase function. The numerical identities
    (map = Fourier sum, inverse transform, half/full, XYZ/ZYX) involve pocketfft and floating point and
    are decided by O(N^2) direct-sum oracles on the implementation (see DESIGN.md). *)
-From GV Require Import Sym.AsuDefs Move.MoveProofs Fft.Place Fft.PlaceProofs.
+From GV Require Import Sym.AsuDefs Move.MoveProofs Fft.Place Fft.PlaceProofs Fft.PlaceWhole.
 Local Open Scope Z_scope.
 
 Theorem C14_slots_do_not_collide : forall g u v w u' v' w',
@@ -25,3 +25,48 @@ Theorem C14_placed_value_is_true_value : forall (gr : gops) (phi : v3 -> Z),
     (sg * (phi hkl + sh) - phi (slot_hkl sg (apply_to_hkl o hkl))) mod 24 = 0.
 Proof. exact placed_phase_correct. Qed.
 Print Assumptions C14_placed_value_is_true_value.
+
+(* ---- the whole of get_f_phi_on_grid (loop over reflections x operations with first-writer-wins, then
+   add_friedel_mates), both axis orders, half-l and full grids, ANY reflection list and ANY group:
+   SOUND - every entry left in the grid sits in the slot of an index k = +-(h R) of the orbit of the reflection
+   (serial) it was taken from, k fits the grid, and the stored phase sign*(phi + shift) is the true phase of k; *)
+Theorem C14_whole_grid_sound : forall (gr : gops) (phi : v3 -> Z) (refl : list (Z * v3)),
+  (forall o h, In o (sym_ops gr) ->
+     (phi (divide_hkl (apply_to_hkl_nodiv o h)) - (phi h - dot h (tran o))) mod 24 = 0) ->
+  (forall h, (phi (neg_v3 h) + phi h) mod 24 = 0) ->
+  forall size half zyx,
+    let '(g, m) := f_phi_on_grid size half zyx gr refl in
+    0 < g_nu g -> 0 < g_nw g -> Forall (entry_ok gr phi refl g) m.
+Proof. exact f_phi_on_grid_sound. Qed.
+Print Assumptions C14_whole_grid_sound.
+
+(* COMPLETE (loop part) - the slot of every symmetry image that fits the grid is filled in the result; *)
+Theorem C14_whole_grid_complete : forall size half zyx gr refl ser hkl o idx s,
+  In (ser, hkl) refl -> In o (sym_ops gr) ->
+  place_one (init_grid size half zyx) ser hkl o = Some (idx, s) ->
+  filled (snd (f_phi_on_grid size half zyx gr refl)) idx.
+Proof. exact f_phi_on_grid_complete. Qed.
+Print Assumptions C14_whole_grid_complete.
+
+(* COMPLETE (Friedel part) - after add_friedel_mates every slot of the region it is responsible for (the whole
+   box of a full grid, the plane where the halved axis is 0 of a half grid) whose Friedel-mate slot is filled is
+   filled too: with soundness, the grid holds the value of -k wherever it holds the value of k. *)
+Theorem C14_friedel_mates_complete : forall g m u v w,
+  0 <= u < g_nu g -> 0 <= v < g_nv g -> 0 <= w < g_nw g ->
+  (g_half g = true -> if g_zyx g then u = 0 else w = 0) ->
+  filled m (index_q g (mate u (g_nu g)) (mate v (g_nv g)) (mate w (g_nw g))) ->
+  filled (add_friedel_mates g m) (index_q g u v w).
+Proof. exact add_friedel_mates_covers. Qed.
+Print Assumptions C14_friedel_mates_complete.
+
+(* non-vacuity: P 21 (row of number 4), 6 x 8 x 10 grid, half-l: reflections (1,2,3) and (0,1,0) give 4 entries (two operations each) *)
+Example C14_whole_grid_example :
+  match find (fun r => sg_number r =? 4) sg_table with
+  | Some r => match operations r with
+              | HOk gr => length (snd (f_phi_on_grid (6, 8, 10) true false gr [(1, (1, 2, 3)); (2, (0, 1, 0))]))
+              | _ => 0%nat
+              end
+  | None => 0%nat
+  end = 4%nat.
+Proof. vm_compute. reflexivity. Qed.
+
